@@ -44,3 +44,36 @@ Definition site_present (e : string * string * string) : bool :=
 
 Lemma relation_sites_route_to_xtypes : forallb site_present expected_sites = true.
 Proof. vm_compute. reflexivity. Qed.
+
+(* ---- what each case of typeIdentical reads of its operands. Type identity is defined per type constructor on a fixed set of
+   attributes (Go spec, "Type identity"): an interface by its method set (never by how it is spelled: embedded interfaces, explicit
+   methods), a named type by its declaration and type arguments (never by its underlying type), a channel by direction and element,
+   a struct by fields and tags, a signature by parameters, results and variadicity. Every case reads all the attributes it has to
+   (`required`) and nothing beyond them and the listed harmless refinements (`allowed`). *)
+Definition reads_spec : list (string * (list string * list string)) := [
+  ("Basic", (["Kind"], []));
+  ("Array", (["Elem"; "Len"], []));
+  ("Slice", (["Elem"], []));
+  ("Struct", (["Field"; "NumFields"; "Tag"], []));
+  ("Pointer", (["Elem"], []));
+  ("Tuple", (["At"; "Len"], []));
+  ("Signature", (["Params"; "Results"; "Variadic"], ["TypeParams"]));
+  ("Interface", (["Method"; "NumMethods"], ["IsComparable"; "IsMethodSet"; "Empty"]));
+  ("Map", (["Elem"; "Key"], []));
+  ("Chan", (["Dir"; "Elem"], []));
+  ("Named", (["Obj"; "TypeArgs"], ["Origin"]))
+].
+
+Definition mem (x : string) (l : list string) : bool := existsb (String.eqb x) l.
+
+Definition case_ok (c : string * list string) : bool :=
+  match find (fun e => String.eqb (fst e) (fst c)) reads_spec with
+  | Some (_, (required, allowed)) =>
+    forallb (fun r => mem r (snd c)) required && forallb (fun r => mem r required || mem r allowed) (snd c)
+  | None => false
+  end.
+
+Lemma case_reads_are_the_identity_attributes :
+  forallb case_ok gen_case_reads = true /\
+  forallb (fun e => existsb (fun c => String.eqb (fst c) (fst e)) gen_case_reads) reads_spec = true.
+Proof. split; vm_compute; reflexivity. Qed.
